@@ -1,5 +1,6 @@
 import Driver.Proto
 import SpsdkVerif.Model.BinImage
+import SpsdkVerif.Model.HexFmt
 open SpsdkVerif Driver
 open SpsdkVerif.BinImg SpsdkVerif.Misc
 
@@ -38,6 +39,35 @@ def vres : Except VErr Unit → String
   | .error .sticksOut => "E:overlap"
   | .error .overlap => "E:overlap"
 
+def parseSeg (s : String) : Option HexFmt.Seg :=
+  match s.splitOn ":" with
+  | [a, d] => match parseNat a, parseHex d with
+    | some a, some d => some ⟨a, d⟩
+    | _, _ => none
+  | _ => none
+
+def parseExec (s : String) : Option (Option Nat) :=
+  if s == "N" then some none else (parseNat s).map some
+
+def herr : HexFmt.HErr → String
+  | .fmt => "E:fmt"
+  | .value => "E:value"
+
+def hexEnc (f : Option Nat → List HexFmt.Seg → Except HexFmt.HErr HexFmt.Bytes) (e : String) (toks : List String) : String :=
+  match parseExec e, toks.mapM parseSeg with
+  | some e, some segs => (match f e segs with | .ok t => "ok:" ++ toHex t | .error x => herr x)
+  | _, _ => "bad-op"
+
+def hexDec (f : HexFmt.Bytes → Except HexFmt.HErr HexFmt.Image) (t : String) : String :=
+  match parseHex t with
+  | none => "bad-op"
+  | some text =>
+    match f text with
+    | .error x => herr x
+    | .ok img =>
+      let e := match img.exec with | some e => toString e | none => "N"
+      "ok:" ++ " ".intercalate (e :: img.segs.map (fun s => s!"{s.addr}:{if s.data.isEmpty then "-" else toHex s.data}"))
+
 def step : List String → String
   | "len" :: toks => match parseImg 64 toks with | some (i, []) => s!"ok:{i.len}" | _ => "bad-op"
   | "export" :: toks => match parseImg 64 toks with | some (i, []) => resLine toHex i.export | _ => "bad-op"
@@ -47,6 +77,13 @@ def step : List String → String
     let imgs := offs.mapIdx (fun i o => Img.mk i o 1 none none [])   -- size field abused as identity tag
     let p := imgs.foldl (fun p c => p.addImage c) (Img.mk 0 0 1 none none [])
     "ok:" ++ ",".intercalate (p.children.map (fun c => toString c.size))
+  -- HEX / SREC text model (Model/HexFmt.lean): <exec|N> <addr>:<hex> …  ->  ok:<hex of the text>
+  | "ihex_enc" :: e :: toks => hexEnc HexFmt.ihexEncode e toks
+  | "srec_enc" :: e :: toks => hexEnc HexFmt.srecEncode e toks
+  -- <hex of the text>  ->  ok:<exec|N> <addr>:<hex> …
+  | ["ihex_dec", t] => hexDec HexFmt.ihexDecode t
+  | ["srec_dec", t] => hexDec HexFmt.srecDecode t
+  | ["load_text", t] => hexDec HexFmt.loadText t
   | _ => "bad-op"
 
 def main : IO Unit := Driver.loop step
